@@ -49,6 +49,11 @@ def build(r, name, n, mask, fieldless, generics=None):
         ders += ["VariantArray", "Display", "AsRefStr"]
     s.derives = ders
     gen.add_noise(r, s, enum_level=False, skip=("serialize", "std_default"))
+    if not fieldless and r.random() < 0.4:
+        dv = Variant(ident="CatchAll%s" % name, kind="tuple", fields=[Field(ty="String")], default=True)
+        if r.random() < 0.3:
+            dv.to_string = "catch-all-%s" % name.lower()
+        s.variants.insert(r.randint(0, len(s.variants)), dv)
     return s
 
 
